@@ -354,7 +354,8 @@ func init() {
 }
 
 // helperInputs: small integer-valued floats with ties and runs (exact arithmetic, Since counters
-// and Filter both get something to do); never 0 so that ratios stay finite.
+// and Filter both get something to do). Zero - the zero value of the element type - is in the
+// pool, also as the first element; ratios over it give Inf/NaN in the model and the helper alike.
 func helperInputs(lens []int, seed int64) [][]F {
 	rng := rand.New(rand.NewSource(seed))
 	in := make([][]F, len(lens))
@@ -364,7 +365,7 @@ func helperInputs(lens []int, seed int64) [][]F {
 			if k > 0 && rng.Intn(3) == 0 {
 				in[i][k] = in[i][k-1]
 			} else {
-				in[i][k] = F(1 + rng.Intn(9))
+				in[i][k] = F(rng.Intn(10))
 			}
 		}
 	}
